@@ -70,8 +70,12 @@ def conn_step(a0: int, a1: int, a2: int, a3: int, x0: int, x1: int, k: int) -> b
         return fail('element counter out of sync after flush()')
     if c.has_buffer() != (len(c.buffer) > 0):
         return fail('has_buffer() inconsistent with buffer')
-    if len(before) > 0 and k >= 1 and r < 1:
+    if len(before) > 0 and k >= 1 and r < 1 and lens[0] > 0:
         return fail('no progress although the socket accepted bytes')
+    if len(lens) > 0 and lens[0] == 0 and k >= 0 and len(c.buffer) >= len(lens):
+        # a zero-length element (a plugin may queue b'') holds no output: a flush on a writable socket must retire it, otherwise
+        # has_buffer() stays true for ever (the connection is never idle, never drained)
+        return fail('zero-length element at the head of the buffer not retired by flush()')
     ms = CFG['max_send']
     if ms is not None and r > ms:
         return fail('more than max_send_size bytes written in one flush')
@@ -397,7 +401,7 @@ def http_relay(d0: int, d1: int, d2: int, s0: int, s1: int) -> bool:
 
 def obligations(tier):
     obs = []
-    lens_set = [[], [1], [2], [3], [1, 1], [1, 2], [2, 1], [3, 1], [1, 3], [2, 2]]
+    lens_set = [[], [1], [2], [3], [1, 1], [1, 2], [2, 1], [3, 1], [1, 3], [2, 2], [0], [0, 1], [1, 0], [0, 0]]
     for lens in lens_set:
         nm = 'x'.join(map(str, lens)) or 'empty'
         for ms in (None, 1, 2, 3):
